@@ -25,93 +25,98 @@ import (
 
 // Knobs select what a history contains (the "deck" of a property).
 type Knobs struct {
-	Name        string
-	Units       int // number of steps
-	RangeKeys   bool
-	Batches     bool
-	Snapshots   bool
-	Iters       bool // positioning-op bursts on short-lived iterators
-	LongIters   bool // iterators kept open across later writes/maintenance
-	BatchIters  bool
-	Masking     bool
-	Limits      bool
-	Maint       bool
-	Reopen      bool
-	Ingest      bool
-	Excise      bool
-	EFOS        bool
-	BigValues   bool
-	ValueSep    bool
-	Ratchet     bool
-	AuditEvery  int // full audit every k steps (0 = only at end)
-	IterBurst   int // positioning ops per burst
-	SnapAudit   bool
+	Name                 string
+	Units                int // number of steps
+	RangeKeys            bool
+	Batches              bool
+	Snapshots            bool
+	Iters                bool // positioning-op bursts on short-lived iterators
+	LongIters            bool // iterators kept open across later writes/maintenance
+	BatchIters           bool
+	Masking              bool
+	Limits               bool
+	Maint                bool
+	Reopen               bool
+	Ingest               bool
+	Excise               bool
+	EFOS                 bool
+	BigValues            bool
+	ValueSep             bool
+	Ratchet              bool
+	AuditEvery           int // full audit every k steps (0 = only at end)
+	IterBurst            int // positioning ops per burst
+	SnapAudit            bool
 	NoAutoCompactionsPct int
-	MaskFilterDiff bool // C09: differential run with/without block-property mask
-	TinyCaches    bool // C04: file cache of 1-2 handles, zero block cache
-	MaintHeavy    bool
-	IngestHeavy   bool
-	EFOSHeavy     bool
-	LightAudit    bool // C15: per-step audit = structural checks only (full audit every 10th)
-	VersionWalk   bool // C15: independent version + table content walkers
-	ForceValueSep bool
-	RatchetHeavy  bool
-	ScanInternal  bool // C45
-	NoMerge       bool // no Merge / SingleDelete (precondition of collapsed internal scans)
+	MaskFilterDiff       bool // C09: differential run with/without block-property mask
+	TinyCaches           bool // C04: file cache of 1-2 handles, zero block cache
+	MaintHeavy           bool
+	IngestHeavy          bool
+	EFOSHeavy            bool
+	LightAudit           bool // C15: per-step audit = structural checks only (full audit every 10th)
+	VersionWalk          bool // C15: independent version + table content walkers
+	ForceValueSep        bool
+	RatchetHeavy         bool
+	ScanInternal         bool // C45
+	FlushGate            bool // hold flushables in the queue for a few steps in half of the cases
+	NoMerge              bool // no Merge / SingleDelete (precondition of collapsed internal scans)
 }
 
 // Config is the drawn DB configuration; recorded in replays.
 type Config struct {
-	FMV                  int
-	MemTableSize         uint64
-	L0CompactionThreshold int
-	L0FileThreshold      int
-	LBaseMaxBytes        int64
-	TargetFileSize       int64
-	BlockSize            int
-	IndexBlockSize       int
-	RestartInterval      int
-	CacheSize            int64
-	FileCacheSize        int
-	DisableAuto          bool
-	MaxConcurrent        int
-	MaxManifest          int64
-	Bloom                bool
-	DisableWAL           bool
-	FlushSplitBytes      int64
-	ValueSep             bool
-	ValSepMin            int
-	Letters              int
-	MaxSuffix            int
+	FMV                      int
+	MemTableSize             uint64
+	L0CompactionThreshold    int
+	L0FileThreshold          int
+	LBaseMaxBytes            int64
+	TargetFileSize           int64
+	BlockSize                int
+	IndexBlockSize           int
+	RestartInterval          int
+	CacheSize                int64
+	FileCacheSize            int
+	DisableAuto              bool
+	MaxConcurrent            int
+	MaxManifest              int64
+	Bloom                    bool
+	DisableWAL               bool
+	FlushSplitBytes          int64
+	ValueSep                 bool
+	ValSepMin                int
+	Letters                  int
+	MaxSuffix                int
 	DisableIngestAsFlushable bool
-	IngestSplit          bool
-	DeleteOnlyExcise     bool
+	IngestSplit              bool
+	DeleteOnlyExcise         bool
+	FlushGate                bool
 }
 
 func drawConfig(rng *rand.Rand, k Knobs) Config {
 	c := Config{
-		FMV:                   int(pebble.FormatMinSupported) + rng.IntN(int(pebble.FormatNewest-pebble.FormatMinSupported)+1),
-		MemTableSize:          pick(rng, uint64(16<<10), 32<<10, 64<<10, 256<<10, 1<<20),
-		L0CompactionThreshold: pick(rng, 1, 2, 4),
-		L0FileThreshold:       pick(rng, 2, 4, 500),
-		LBaseMaxBytes:         pick(rng, int64(1<<10), 8<<10, 64<<10, 64<<20),
-		TargetFileSize:        pick(rng, int64(512), 1<<10, 4<<10, 2<<20),
-		BlockSize:             pick(rng, 32, 128, 512, 4096),
-		IndexBlockSize:        pick(rng, 32, 256, 4096),
-		RestartInterval:       pick(rng, 1, 2, 16),
-		CacheSize:             pick(rng, int64(0), 16<<10, 1<<20),
-		FileCacheSize:         pick(rng, 0, 0, 1, 2, 8), // 0 = default
-		DisableAuto:           rng.IntN(100) < k.NoAutoCompactionsPct,
-		MaxConcurrent:         1 + rng.IntN(4),
-		MaxManifest:           pick(rng, int64(1), 1<<10, 128<<20),
-		Bloom:                 rng.IntN(2) == 0,
-		DisableWAL:            rng.IntN(8) == 0,
-		FlushSplitBytes:       pick(rng, int64(0), 1<<10, 0),
-		Letters:               3 + rng.IntN(4),
-		MaxSuffix:             3 + rng.IntN(4),
+		FMV:                      int(pebble.FormatMinSupported) + rng.IntN(int(pebble.FormatNewest-pebble.FormatMinSupported)+1),
+		MemTableSize:             pick(rng, uint64(16<<10), 32<<10, 64<<10, 256<<10, 1<<20),
+		L0CompactionThreshold:    pick(rng, 1, 2, 4),
+		L0FileThreshold:          pick(rng, 2, 4, 500),
+		LBaseMaxBytes:            pick(rng, int64(1<<10), 8<<10, 64<<10, 64<<20),
+		TargetFileSize:           pick(rng, int64(512), 1<<10, 4<<10, 2<<20),
+		BlockSize:                pick(rng, 32, 128, 512, 4096),
+		IndexBlockSize:           pick(rng, 32, 256, 4096),
+		RestartInterval:          pick(rng, 1, 2, 16),
+		CacheSize:                pick(rng, int64(0), 16<<10, 1<<20),
+		FileCacheSize:            pick(rng, 0, 0, 1, 2, 8), // 0 = default
+		DisableAuto:              rng.IntN(100) < k.NoAutoCompactionsPct,
+		MaxConcurrent:            1 + rng.IntN(4),
+		MaxManifest:              pick(rng, int64(1), 1<<10, 128<<20),
+		Bloom:                    rng.IntN(2) == 0,
+		DisableWAL:               rng.IntN(8) == 0,
+		FlushSplitBytes:          pick(rng, int64(0), 1<<10, 0),
+		Letters:                  3 + rng.IntN(4),
+		MaxSuffix:                3 + rng.IntN(4),
 		DisableIngestAsFlushable: rng.IntN(3) == 0,
-		IngestSplit:           rng.IntN(2) == 0,
-		DeleteOnlyExcise:      rng.IntN(2) == 0,
+		IngestSplit:              rng.IntN(2) == 0,
+		DeleteOnlyExcise:         rng.IntN(2) == 0,
+	}
+	if k.FlushGate && !c.DisableIngestAsFlushable && rng.IntN(2) == 0 {
+		c.FlushGate = true
 	}
 	if k.ValueSep && (k.ForceValueSep || rng.IntN(3) != 0) {
 		c.ValueSep = true
@@ -167,7 +172,7 @@ func MakeOptions(c Config, fs vfs.FS, ev *Events) *pebble.Options {
 		KeySchemas:                  sstable.MakeKeySchemas(&ks),
 		FormatMajorVersion:          pebble.FormatMajorVersion(c.FMV),
 		MemTableSize:                c.MemTableSize,
-		MemTableStopWritesThreshold: 6,
+		MemTableStopWritesThreshold: map[bool]int{false: 6, true: 40}[c.FlushGate],
 		L0CompactionThreshold:       c.L0CompactionThreshold,
 		L0CompactionFileThreshold:   c.L0FileThreshold,
 		L0StopWritesThreshold:       1000,
@@ -241,13 +246,13 @@ func MakeOptions(c Config, fs vfs.FS, ev *Events) *pebble.Options {
 // ---------------------------------------------------------------------------
 
 type iterObj struct {
-	it     *pebble.Iterator
-	m      *model.Iter
-	desc   string
-	batch  *batchObj // non-nil for batch iterators
-	base   *model.State // batch iterators: committed state pinned at creation
-	born   int
-	frozen bool // long-lived: created before later writes
+	it           *pebble.Iterator
+	m            *model.Iter
+	desc         string
+	batch        *batchObj    // non-nil for batch iterators
+	base         *model.State // batch iterators: committed state pinned at creation
+	born         int
+	frozen       bool        // long-lived: created before later writes
 	excisedSpans [][2]string // spans excised after creation (documented exception for nothing here; kept for snapshots)
 }
 
@@ -303,7 +308,9 @@ func (r *Run) durable(what string) {
 
 // syncDurable reports whether a commit with these write options is durable
 // when acknowledged.
-func (r *Run) syncDurable(wo *pebble.WriteOptions) bool { return wo != nil && wo.Sync && !r.Cfg.DisableWAL }
+func (r *Run) syncDurable(wo *pebble.WriteOptions) bool {
+	return wo != nil && wo.Sync && !r.Cfg.DisableWAL
+}
 
 func batchApply(ops []model.Op) func(st *model.State) {
 	cp := append([]model.Op(nil), ops...)
@@ -513,44 +520,46 @@ func (r *Run) CrashRestart(newFS vfs.FS, st *model.State) {
 
 // Run is one history.
 type Run struct {
-	R     *vcommon.Report
-	Prop  string
-	K     Knobs
-	Cfg   Config
-	Case  int
-	rng   *rand.Rand
-	fs    vfs.FS
-	Hook  UnitHook // optional observer of unit issue/ack (crash and fault engines)
-	Dir   string
-	db    *pebble.DB
-	opts  *pebble.Options
-	Ev    *Events
-	M     *model.State
-	hist  []string
-	step  int
-	uniq  int
-	w1set map[string]int  // number of Sets since last delete-ish
-	w1mg  map[string]bool // merged since last delete-ish
-	iters []*iterObj
-	snaps []*snapObj
-	efos  []*efosObj
-	bats  []*batchObj
-	nbat  int
-	prefixes []string
-	failed bool
-	shapes map[string]struct{}
-	nontrivial bool
-	sawShadow  bool
-	ingestN int
-	OptsHook func(o *pebble.Options)
-	dbMu     sync.Mutex
-	soft     map[string]int
+	R            *vcommon.Report
+	Prop         string
+	K            Knobs
+	Cfg          Config
+	Case         int
+	rng          *rand.Rand
+	fs           vfs.FS
+	gate         *flushGate
+	gateLeft     int
+	Hook         UnitHook // optional observer of unit issue/ack (crash and fault engines)
+	Dir          string
+	db           *pebble.DB
+	opts         *pebble.Options
+	Ev           *Events
+	M            *model.State
+	hist         []string
+	step         int
+	uniq         int
+	w1set        map[string]int  // number of Sets since last delete-ish
+	w1mg         map[string]bool // merged since last delete-ish
+	iters        []*iterObj
+	snaps        []*snapObj
+	efos         []*efosObj
+	bats         []*batchObj
+	nbat         int
+	prefixes     []string
+	failed       bool
+	shapes       map[string]struct{}
+	nontrivial   bool
+	sawShadow    bool
+	ingestN      int
+	OptsHook     func(o *pebble.Options)
+	dbMu         sync.Mutex
+	soft         map[string]int
 	NoSyncWrites bool
-	Extra    []ExtraStep // additional weighted steps supplied by other engines
+	Extra        []ExtraStep // additional weighted steps supplied by other engines
 	NoFinalClose bool
-	fileCache *pebble.FileCache
-	seenTables map[uint64]bool
-	Stats map[string]int64
+	fileCache    *pebble.FileCache
+	seenTables   map[uint64]bool
+	Stats        map[string]int64
 }
 
 func (r *Run) count(name string, n int64) { r.Stats[name] += n }
